@@ -41,6 +41,11 @@ namespace nmtools::index
             for (nm_index_t i=1; i<=nm_index_t(n_planes); i++) {
                 at(result,-i) = at(src_shape,-i);
             }
+
+            // batched input (N,C,spatial...): keep the batch extent
+            if ((nm_size_t)src_dim == (nm_size_t)n_planes + 2) {
+                at(result,0) = at(src_shape,0);
+            }
         }
         
         return result;
